@@ -22,7 +22,8 @@ def one(d):
     return sid, res
 
 
-dirs = sorted(p for p in (VERIF / "seeded").iterdir() if p.is_dir())
+dirs = sorted(p for p in (VERIF / "seeded").iterdir() if p.is_dir()
+              and "obsolete_since" not in json.loads((p / "meta.json").read_text()))
 with ThreadPoolExecutor(jobs) as ex:
     results = dict(ex.map(one, dirs))
 lines = ["# Seeded changes (re-run by tools/seedsweep.py)", "",
